@@ -121,36 +121,6 @@ Qed.
 
 (* ---- terminals ------------------------------------------------------------ *)
 
-Lemma take_ws_prefix cs : cs = take_ws cs ++ skipn (length (take_ws cs)) cs.
-Proof.
-  induction cs as [|c cs IH]; [reflexivity|]. cbn. destruct (is_ws_char c); [|reflexivity].
-  cbn. f_equal. exact IH.
-Qed.
-
-Lemma term_match_prefix t cs m : term_match t cs = Some m -> cs = m ++ skipn (length m) cs.
-Proof.
-  destruct t; cbn.
-  - destruct cs; [discriminate|]. intro H; injection H as <-. reflexivity.
-  - destruct cs; [discriminate|]. destruct (n =? c)%N; [|discriminate]. intro H; injection H as <-. reflexivity.
-  - destruct cs; [discriminate|]. destruct ((a <=? n)%N && (n <=? b)%N); [|discriminate].
-    intro H; injection H as <-. reflexivity.
-  - destruct (list_eqb s (firstn (length s) cs)) eqn:E; [|discriminate].
-    intro H; injection H as <-. apply list_eqb_eq in E. rewrite E at 1.
-    rewrite E at 2. rewrite firstn_length.
-    destruct (Nat.le_gt_cases (length s) (length cs)).
-    + rewrite Nat.min_l by auto. symmetry. apply firstn_skipn.
-    + rewrite Nat.min_r by lia. rewrite firstn_all2 by lia. rewrite skipn_all. symmetry. apply app_nil_r.
-  - destruct (list_eqb s (map lower_char (firstn (length s) cs))); [|discriminate].
-    intro H; injection H as <-. rewrite firstn_length.
-    destruct (Nat.le_gt_cases (length s) (length cs)).
-    + rewrite Nat.min_l by auto. symmetry. apply firstn_skipn.
-    + rewrite Nat.min_r by lia. rewrite firstn_all2 by lia. rewrite skipn_all. symmetry. apply app_nil_r.
-  - destruct cs; [discriminate|]. destruct (lower_char n =? c)%N; [|discriminate].
-    intro H; injection H as <-. reflexivity.
-  - destruct cs; [|discriminate]. intro H; injection H as <-. reflexivity.
-  - intro H; injection H as <-. apply take_ws_prefix.
-Qed.
-
 Lemma lift_term_ok {A A' B} (RV : A' -> B -> Prop) (f : A -> A') (v : list N -> B)
       (val : list N -> A) st gl cs t sp (r : tres A) :
   term_ok scfg r st cs t val sp ->
